@@ -133,3 +133,286 @@ Proof.
   split; [vm_compute; reflexivity|]. split; [vm_compute; reflexivity|].
   repeat split; try (vm_compute; reflexivity). vm_compute. tauto.
 Qed.
+
+(* ================================================================== (iv) Core-language closure
+   The statement compilers of the core language — if / else-if / else chains, while / do-while / for
+   (Model.IfElse, Model.Loop: Lexer.parse_if_else, while_, for_ with DataPack's private-function numbering;
+   tied to the repo by properties C04 / C05) and `switch` under both strategies and Hardcode.switch
+   (Model.Switch; tied by C06) — emit closed code for EVERY program, not per logged trace.
+
+   `calls l` (Proofs.CoreCalls) = every function name the commands l name statically: `function f`,
+   `function f with storage s`, and the command after `run` of an `execute`.  `mcalls l` = the macro calls
+   `$function pre$(key)`, whose target `pre ++ z_dec v` exists only at run time.  `fcalls fs` / `fmcalls fs`
+   = those of the bodies of the functions fs.  MC.Sem consults the function table at these names only. *)
+From JMCV Require Import MC.Syntax MC.Print Proofs.CoreCalls Proofs.CoreClosed.
+From JMCV Require MC.Sem Model.PrivAlloc Model.IfElse Model.Loop Model.Switch Proofs.LoopAlloc Proofs.Switch
+     Proofs.CoreClosedLoop Proofs.CoreClosedSwitch.
+
+Theorem C07_calls_are_all_lookups :
+  forall ft ft' env fuel menv c st,
+    calls1 c = [] -> mcalls1 c = [] -> Sem.exec ft env fuel menv c st = Sem.exec ft' env fuel menv c st.
+Proof. exact no_calls_ft_irrelevant. Qed.
+Print Assumptions C07_calls_are_all_lookups.
+
+(* a macro call whose run-time target is not a function runs nothing and leaves the state unchanged *)
+Theorem C07_macro_call_miss :
+  forall ft env fuel menv pre key st,
+    (forall v, menv key = Some v -> ft (pre ++ z_dec v) = None) ->
+    Sem.exec ft env (S fuel) menv (CMacroCall pre key) st = Some (st, Sem.r_fail).
+Proof. exact macro_call_miss. Qed.
+Print Assumptions C07_macro_call_miss.
+
+(* (iv-a) if / else chains and loops, nested without bound.  For every statement tree `prog` that
+   Model.Loop.compile_body lowers to the caller lines `lines` and the private functions `fdefs`
+   (CoreClosedLoop.src_stmts prog = the commands the source supplies: basic statements, the helper lines of
+   conditions, for-initialisers and steps):
+     - the generated names are pairwise distinct and are call_func names of the groups if_else / while_loop / for_loop;
+     - every function called by the caller lines or by the body of a generated function is a generated
+       function, or is called by a command the source supplied: the lowering adds no dangling call;
+     - no macro call is added;
+     - no generated function is empty (C07_lines: the machine drops empty lines). *)
+Theorem C07_core_closed_ifelse_loops :
+  forall nm prog lines fdefs,
+    Loop.compile_body nm prog = Some (lines, fdefs) ->
+    NoDup (map fst fdefs) /\
+    (forall name, In name (map fst fdefs) -> exists g k, In g LoopAlloc.groups /\ name = PrivAlloc.priv_fn nm g k) /\
+    (forall f, In f (calls lines ++ fcalls fdefs)%list ->
+               In f (map fst fdefs) \/ In f (calls (CoreClosedLoop.src_stmts prog))) /\
+    (forall pk, In pk (mcalls lines ++ fmcalls fdefs)%list -> In pk (mcalls (CoreClosedLoop.src_stmts prog))) /\
+    (forall name body, In (name, body) fdefs -> body <> []).
+Proof. exact CoreClosedLoop.core_closed_ifelse_loops. Qed.
+Print Assumptions C07_core_closed_ifelse_loops.
+
+(* … so a call into the private namespace `<ns>:<PRIVATE>/…` never dangles, when the source commands make none *)
+Theorem C07_core_private_calls_resolve :
+  forall nm prog lines fdefs,
+    Loop.compile_body nm prog = Some (lines, fdefs) ->
+    (forall f, In f (calls (CoreClosedLoop.src_stmts prog)) -> CoreClosedLoop.in_private nm f = false) ->
+    forall f, In f (calls lines ++ fcalls fdefs)%list -> CoreClosedLoop.in_private nm f = true -> In f (map fst fdefs).
+Proof. exact CoreClosedLoop.core_private_calls_resolve. Qed.
+Print Assumptions C07_core_private_calls_resolve.
+
+(* (iv-b) one `switch` statement / Hardcode.switch, either strategy (CoreClosedSwitch.switch_closed_spec, in full):
+     - every function the emitted commands or an emitted function call is emitted, or is called by a case body;
+       the only macro call added is the dispatcher's `$function <pre>$(switch_key)`;
+     - macro dispatch: the dispatcher <pre>select is emitted and called; for every numeric label v the run-time
+       target <pre><v> is emitted, for every other value it is not (the call then runs nothing: C07_macro_call_miss);
+       <pre>default is emitted iff it is referenced iff there is a default entry;
+     - binary search tree: the emitted commands call exactly the root, the root is emitted, every
+       `function …/<k>` a node emits for a sub-range is emitted (first clause), the names are pairwise distinct. *)
+Theorem C07_core_closed_switch_statement :
+  forall nm c x entries pc sid cmds fs pc' sid',
+    Switch.compile_switch nm c x entries pc sid = Switch.Ok (cmds, fs, pc', sid') ->
+    let cases := Proofs.Switch.cases_of entries in
+    let inputs := flat_map snd cases in
+    let names := CoreClosedSwitch.fnames fs in
+    (forall f, In f (calls cmds ++ fcalls fs)%list -> In f names \/ In f (calls inputs)) /\
+    (forall p k, In (p, k) (mcalls cmds ++ fmcalls fs)%list ->
+       (Switch.is_macro c = true /\ p = Switch.macro_prefix nm Switch.SWITCH_CASE_NAME pc /\ k = "switch_key") \/
+       In (p, k) (mcalls inputs)) /\
+    if Switch.is_macro c then
+      let pre := Switch.macro_prefix nm Switch.SWITCH_CASE_NAME pc in
+      In (pre ++ "select", [CMacroCall pre "switch_key"]) fs /\
+      In (pre ++ "select") (calls cmds) /\
+      (forall v, In (Switch.LNum v) (map fst cases) -> In (pre ++ z_dec v) names) /\
+      (forall v, ~ In (Switch.LNum v) (map fst cases) -> ~ In (pre ++ z_dec v) names) /\
+      (In (pre ++ "default") (calls cmds) <-> In Switch.LDefault (map fst cases)) /\
+      (In (pre ++ "default") names <-> In Switch.LDefault (map fst cases))
+    else
+      calls cmds = [Switch.priv_path nm Switch.SWITCH_CASE_NAME (z_dec pc)] /\
+      In (Switch.priv_path nm Switch.SWITCH_CASE_NAME (z_dec pc)) names /\
+      NoDup names.
+Proof. exact CoreClosedSwitch.compile_switch_closed. Qed.
+Print Assumptions C07_core_closed_switch_statement.
+
+Theorem C07_core_closed_hardcode_switch :
+  forall nm c x body b cnt pc sid cmds fs pc' sid',
+    Switch.compile_hardcode nm c x body b cnt pc sid = Switch.Ok (cmds, fs, pc', sid') ->
+    CoreClosedSwitch.switch_closed_spec nm c Switch.HARDCODE_SWITCH_NAME (Proofs.Switch.hard_cases body b cnt) pc cmds fs.
+Proof. exact CoreClosedSwitch.compile_hardcode_closed. Qed.
+Print Assumptions C07_core_closed_hardcode_switch.
+
+(* (iv-c) whole packs under either strategy (Model.Switch.compile_functions: user functions whose bodies nest
+   switch statements, Hardcode.switch and user calls `f();` without bound): every user function is emitted;
+   every function called by an emitted function is emitted or is a user call written in the source
+   (CoreClosedSwitch.ucalls_fl); every macro call is the `$function <p>$(switch_key)` of an emitted dispatcher. *)
+Theorem C07_core_closed_switch :
+  forall fuel nm c fl st fs,
+    Switch.compile_functions fuel nm c fl st = Switch.Ok fs ->
+    let names := CoreClosedSwitch.fnames fs in
+    (forall name, In name (map fst fl) -> In (CoreClosedSwitch.user_name nm name) names) /\
+    (forall f, In f (fcalls fs) ->
+               In f names \/ In f (map (CoreClosedSwitch.user_name nm) (CoreClosedSwitch.ucalls_fl fl))) /\
+    (forall p k, In (p, k) (fmcalls fs) -> k = "switch_key" /\ In (p ++ "select") names).
+Proof. exact CoreClosedSwitch.core_closed_switch. Qed.
+Print Assumptions C07_core_closed_switch.
+
+(* … hence no static call dangles at all when every user call names a function of the pack *)
+Theorem C07_core_closed_switch_defined :
+  forall fuel nm c fl st fs,
+    Switch.compile_functions fuel nm c fl st = Switch.Ok fs ->
+    incl (CoreClosedSwitch.ucalls_fl fl) (map fst fl) ->
+    forall f, In f (fcalls fs) -> In f (CoreClosedSwitch.fnames fs).
+Proof. exact CoreClosedSwitch.core_closed_switch_defined. Qed.
+Print Assumptions C07_core_closed_switch_defined.
+
+(* (iv-d) The bridge to the machine.  Model.Alloc stores text, the statement compilers are modelled on
+   MC.Syntax commands printed by MC.Print.  If every line that can reach a function file is a line of the
+   printed form of a command of `code` in which the reference scanner sees only calls the command makes
+   (text_fromb: decidable), and every function `code` calls is defined in the state (`defined` = ref_defined
+   on a function reference), then build()'s output is closed.  The remaining hypotheses are those of
+   C07_machine_closed that are not about calls: json_discb, paths_disc, tag_free. *)
+Theorem C07_core_machine_closed :
+  forall c b st files code,
+    build c b st = inr files ->
+    text_fromb code (all_lines c b st) = true ->
+    (forall f, In f (calls code) -> defined c b st f) ->
+    json_discb c b st = true -> paths_disc c b st = true -> tag_free c st = true ->
+    closedb c files = true.
+Proof. exact core_machine_closed. Qed.
+Print Assumptions C07_core_machine_closed.
+
+(* For lowered chains and loops the definedness of every GENERATED call is proved, not assumed: it is enough
+   that the generated functions are stored as the private functions they are named after (priv_has) and that
+   what the source commands and `extra` (everything else that reaches function files) call is defined. *)
+Theorem C07_core_loops_machine_closed :
+  forall c b st files prog lines fdefs extra,
+    Loop.compile_body (c_nm c) prog = Some (lines, fdefs) ->
+    build c b st = inr files ->
+    text_fromb (lines ++ flat_map snd fdefs ++ extra)%list (all_lines c b st) = true ->
+    (forall g k, In g LoopAlloc.groups -> In (PrivAlloc.priv_fn (c_nm c) g k) (map fst fdefs) ->
+                 priv_has g (dec_nat k) (privs st)) ->
+    (forall f, In f (calls (CoreClosedLoop.src_stmts prog) ++ calls extra)%list -> defined c b st f) ->
+    json_discb c b st = true -> paths_disc c b st = true -> tag_free c st = true ->
+    closedb c files = true.
+Proof. exact core_loops_machine_closed. Qed.
+Print Assumptions C07_core_loops_machine_closed.
+
+(* For packs of switch statements: every emitted function is defined in the state, every user call names a
+   function of the pack. *)
+Theorem C07_core_switch_machine_closed :
+  forall c b st files fuel scfg fl cst fs extra,
+    Switch.compile_functions fuel (c_nm c) scfg fl cst = Switch.Ok fs ->
+    build c b st = inr files ->
+    text_fromb (flat_map snd fs ++ extra)%list (all_lines c b st) = true ->
+    (forall name, In name (map fst fs) -> defined c b st name) ->
+    incl (CoreClosedSwitch.ucalls_fl fl) (map fst fl) ->
+    (forall f, In f (calls extra) -> defined c b st f) ->
+    json_discb c b st = true -> paths_disc c b st = true -> tag_free c st = true ->
+    closedb c files = true.
+Proof. exact core_switch_machine_closed. Qed.
+Print Assumptions C07_core_switch_machine_closed.
+
+(* the generated names are the machine's call_func names; a stored private / user function is defined *)
+Theorem C07_core_names_defined :
+  forall c b st g n,
+    (priv_has g n (privs st) -> mem_str (first_seg (c_private c)) (c_overrides c) = false ->
+     defined c b st (call_func_loc (c_ns c) (c_private c) g n)) /\
+    (forall k, PrivAlloc.priv_fn (c_nm c) g k = call_func_loc (c_ns c) (c_private c) g (dec_nat k)) /\
+    Switch.priv_path (c_nm c) g n = call_func_loc (c_ns c) (c_private c) g n /\
+    (forall p, amem p (funcs st) = true -> defined c b st (fmt c p)).
+Proof. exact core_names_defined. Qed.
+Print Assumptions C07_core_names_defined.
+
+(* ------------------------------------------------------------------ non-vacuity of (iv) *)
+Definition cx_nm := mkNames "mypack" "v" "i" "priv" "load" "tick" "st".
+Definition cx_c := mkCfg cx_nm false [] [] [].
+Definition cx_b := mkB [] [] [] [] [] [] [("v", "dummy")] [] false.
+Definition cx_extra := [COther "scoreboard objectives add v dummy"].
+Definition cx_v (s : string) : score := (s, "v").
+Definition cx_lg := cx_v "__logic__0".
+Definition cx_or := IfElse.mkCond
+  [CSet cx_lg 0;
+   CExecute (IfElse.mods_of [(true, Matches (cx_v "$b") (Exact 1))]) (CSet cx_lg 1);
+   CExecute (IfElse.mods_of [(false, Matches cx_lg (Exact 1)); (true, Matches (cx_v "$c") (Exact 1))]) (CSet cx_lg 1)]
+  [(true, Matches cx_lg (Exact 1))].
+Definition cx_is (s : string) (z : Z) := IfElse.mkCond [] [(true, Matches (cx_v s) (Exact z))].
+
+(* function main() { if ($a == 1) { while ($b == 1 || $c == 1) { if ($d == 2) { say x1; helper(); }
+                                                                   else { say x3; $b += 1; } }  say x4; } }
+   — an if / else chain in a while loop in an if.  The model's output is, line for line, what the real
+   compiler writes for this source (four private functions if_else/0, if_else/1, while_loop/0, if_else/2). *)
+Definition cx_prog : Loop.stmts :=
+  Loop.SCons (Loop.SIf (Loop.BCons (cx_is "$a" 1)
+     (Loop.SCons (Loop.SWhile cx_or
+        (Loop.SCons (Loop.SIf (Loop.BCons (cx_is "$d" 2)
+                                 (Loop.SCons (Loop.SCmd (CSay "x1")) (Loop.SCons (Loop.SCmd (CCall "mypack:helper")) Loop.SNil))
+                                 Loop.BNil)
+                              (Loop.ESome (Loop.SCons (Loop.SCmd (CSay "x3"))
+                                             (Loop.SCons (Loop.SCmd (CAdd (cx_v "$b") 1)) Loop.SNil))))
+                    Loop.SNil))
+     (Loop.SCons (Loop.SCmd (CSay "x4")) Loop.SNil)) Loop.BNil) Loop.ENone)
+  Loop.SNil.
+
+Example C07_core_nonvacuous_nest :
+  exists lines fdefs,
+    Loop.compile_body cx_nm cx_prog = Some (lines, fdefs) /\
+    map fst fdefs = ["mypack:priv/if_else/0"; "mypack:priv/if_else/1"; "mypack:priv/while_loop/0"; "mypack:priv/if_else/2"] /\
+    calls (CoreClosedLoop.src_stmts cx_prog) = ["mypack:helper"] /\
+    CoreClosedLoop.closed_fdefsb lines fdefs ["mypack:helper"] = true /\
+    (* … and through the machine: the pack {main = lines, helper, the four private functions} *)
+    exists st files,
+      run cx_c (loop_pack_ops cx_nm "main" lines fdefs ++ [ONew 1000 ["say hi"]; OFSet "helper" 1000])%list = Some st /\
+      build cx_c cx_b st = inr files /\
+      text_fromb (lines ++ flat_map snd fdefs ++ cx_extra ++ [CSay "hi"])%list (all_lines cx_c cx_b st) = true /\
+      Forall (fun gk => priv_has (fst gk) (dec_nat (snd gk)) (privs st))
+             [("if_else", 0%nat); ("if_else", 1%nat); ("while_loop", 0%nat); ("if_else", 2%nat)] /\
+      defined cx_c cx_b st "mypack:helper" /\
+      json_discb cx_c cx_b st = true /\ paths_disc cx_c cx_b st = true /\ tag_free cx_c st = true /\
+      List.length files = 8%nat /\ closedb cx_c files = true.
+Proof.
+  eexists. eexists. split; [vm_compute; reflexivity|].
+  split; [vm_compute; reflexivity|]. split; [vm_compute; reflexivity|]. split; [vm_compute; reflexivity|].
+  eexists. eexists. split; [vm_compute; reflexivity|]. split; [vm_compute; reflexivity|].
+  split; [vm_compute; reflexivity|].
+  split; [repeat constructor; eexists; eexists; split; vm_compute; reflexivity|].
+  repeat split; vm_compute; reflexivity.
+Qed.
+
+(* function main() { switch ($x) { case 3: say three; break; case 4: helper(); break; case 5: break;
+                                   case 6: say six; $x = 0; case 7: say seven; break; }  say after; }
+   function helper() { say hi; }      — five cases, one of them empty, one calling a user function *)
+Definition cx_fl : list (string * list Switch.stmt) :=
+  [("main", [Switch.SSwitch (cx_v "$x")
+               [(Switch.LNum 3, [Switch.SSay "three"; Switch.SBreak]);
+                (Switch.LNum 4, [Switch.SCall "helper"; Switch.SBreak]);
+                (Switch.LNum 5, [Switch.SBreak]);
+                (Switch.LNum 6, [Switch.SSay "six"; Switch.SSet (cx_v "$x") 0]);
+                (Switch.LNum 7, [Switch.SSay "seven"; Switch.SBreak])];
+             Switch.SSay "after"]);
+   ("helper", [Switch.SSay "hi"])].
+
+Definition cx_switch_ok (pack_format : Z) (nfuncs nfiles : nat) (witness : list string) : Prop :=
+  exists fs,
+    Switch.compile_functions 10 cx_nm (Switch.mkCfg pack_format false) cx_fl Switch.cs0 = Switch.Ok fs /\
+    List.length fs = nfuncs /\ incl witness (map fst fs) /\
+    CoreClosedSwitch.closed_funcsb fs = true /\
+    forallb (fun g => mem_str g (map fst cx_fl)) (CoreClosedSwitch.ucalls_fl cx_fl) = true /\
+    exists st files,
+      run cx_c (switch_pack_ops cx_nm fs) = Some st /\ build cx_c cx_b st = inr files /\
+      text_fromb (flat_map snd fs ++ cx_extra)%list (all_lines cx_c cx_b st) = true /\
+      forallb (fun n => ref_defined cx_c cx_b st (RFunc n)) (map fst fs) = true /\
+      json_discb cx_c cx_b st = true /\ paths_disc cx_c cx_b st = true /\ tag_free cx_c st = true /\
+      List.length files = nfiles /\ closedb cx_c files = true.
+
+(* binary search tree (pack format 15): main, helper and the nine functions of the tree *)
+Example C07_core_nonvacuous_switch_bst :
+  cx_switch_ok 15 11 13 ["mypack:priv/switch_case/0"; "mypack:priv/switch_case/5"; "mypack:priv/switch_case/8"].
+Proof.
+  eexists. split; [vm_compute; reflexivity|]. split; [vm_compute; reflexivity|].
+  split; [intros x Hx; vm_compute in Hx |- *; tauto|].
+  split; [vm_compute; reflexivity|]. split; [vm_compute; reflexivity|].
+  eexists. eexists. split; [vm_compute; reflexivity|]. split; [vm_compute; reflexivity|].
+  repeat split; vm_compute; reflexivity.
+Qed.
+
+(* macro dispatch (pack format 48): main, helper, five label functions and the dispatcher *)
+Example C07_core_nonvacuous_switch_macro :
+  cx_switch_ok 48 8 10 ["mypack:priv/switch_case/0/select"; "mypack:priv/switch_case/0/5"; "mypack:priv/switch_case/0/7"].
+Proof.
+  eexists. split; [vm_compute; reflexivity|]. split; [vm_compute; reflexivity|].
+  split; [intros x Hx; vm_compute in Hx |- *; tauto|].
+  split; [vm_compute; reflexivity|]. split; [vm_compute; reflexivity|].
+  eexists. eexists. split; [vm_compute; reflexivity|]. split; [vm_compute; reflexivity|].
+  repeat split; vm_compute; reflexivity.
+Qed.
